@@ -212,6 +212,32 @@ def cosim_ops(ctx: Ctx, rp, k: int):
         if sid in used:
             ctx.count("cosim_change_membership_of_station_in_use")
         return res.unwrap()
+    if kind == "pop_readd":
+        # a client takes a vehicle out of the simulation (pop_vehicle), corrects its energy from an outside model and puts the
+        # same vehicle back (add_entity) before the next call - preferably one that is on its way to a request
+        import dataclasses
+
+        from nrel.hive.state.simulation_state import simulation_state_ops as sso
+
+        vs = rp.s.get_vehicles()
+        if not vs:
+            return rp
+        en_route = [x for x in vs if type(x.vehicle_state).__name__ == "DispatchTrip"]
+        v = r.choice(en_route) if en_route and r.random() < 0.8 else r.choice(list(vs))
+        try:
+            err_, res_ = sso.pop_vehicle(rp.s, v.id)
+            if err_ is not None:
+                return rp
+            s2, popped = res_
+            if r.random() < 0.5:
+                popped = popped.modify_energy({k_: e_ * 0.999 for k_, e_ in popped.energy.items()})
+            s3 = sso.add_entity(s2, popped)
+        except Exception:
+            return rp
+        ctx.count("cosim_pop_and_put_back")
+        if v in en_route:
+            ctx.count("cosim_pop_and_put_back_a_vehicle_on_its_way_to_a_request")
+        return rp._replace(s=s3)
     if kind == "change_request_membership":
         # the operator opens a waiting request to one more fleet (Request.add_membership + modify_entities), preferably
         # one that already has a vehicle on its way
